@@ -185,7 +185,7 @@ func vNondetCastOpts() vCastOpts {
 func H_C14_special() {
 	text := vNondetString(0, 1, "+-") + vNondetString(0, 8, "iInNfFaAtTyY")
 	o := vCastOpts{toFloat: vNondetBool(), nanInf: vNondetBool(), toBool: true}
-	if vTier() == 1 {
+	if vP("allopts", 0, 1) == 1 {
 		o = vNondetCastOpts()
 	}
 	vC14(text, o)
@@ -193,10 +193,7 @@ func H_C14_special() {
 
 // integers, decimal / exponent / hex floats, underscores, signs
 func H_C14_numeric() {
-	n := 3
-	if vTier() == 1 {
-		n = 4
-	}
+	n := vP("bytes", 3, 4)
 	text := vNondetString(0, n, "019+-.eE_xp ")
 	vC14(text, vNondetCastOpts())
 }
@@ -205,7 +202,7 @@ func H_C14_numeric() {
 func H_C14_bool() {
 	text := vNondetString(1, 5, "tTrRuUeEfFaAlLsS01")
 	o := vCastOpts{toFloat: vNondetBool(), toBool: vNondetBool(), skip: vNondetBool()}
-	if vTier() == 1 {
+	if vP("allopts", 0, 1) == 1 {
 		o = vNondetCastOpts()
 	}
 	vC14(text, o)
